@@ -137,6 +137,10 @@ func evalName(node *jparse.NameNode, data reflect.Value, env *environment) (refl
 	switch {
 	case jtypes.IsStruct(data):
 		v = data.FieldByName(node.Value)
+		if v.IsValid() && !v.CanInterface() {
+			// Unexported fields are not part of the data.
+			v = undefined
+		}
 	case jtypes.IsMap(data):
 		v = data.MapIndex(reflect.ValueOf(node.Value))
 	case jtypes.IsArray(data):
